@@ -198,11 +198,77 @@ class G:
         return {'id': 'm1', 'env': {'e0': 7}, 'inputs': inputs, 'outputs': outputs, 'steps': steps}
 
 
+def fork_case(rng):
+    """two branches of one step side by side: the client answers the irq of the first with a new value for a workflow
+    variable and only then the irq of the second; what runs behind that second irq reads the variable"""
+    T = rng.randint(100, 999)
+    reader = rng.choice(['R1', 'R4', 'R2', 'Rset', 'Rif'])
+    step_out = rng.random() < 0.6
+    racts = [{'id': 'w2', 'uses': IRQ, 'key': 'w2'}]
+    if reader == 'R1':
+        racts.append({'id': 'rd', 'uses': 'acts.transform.code', 'params': '$set("seen", x);'})
+    elif reader == 'R4':
+        racts.append({'id': 'rd', 'uses': 'acts.transform.code', 'params': '$set("seen", $get("x"));'})
+    elif reader == 'Rset':
+        racts.append({'id': 'rd', 'uses': 'acts.transform.set', 'params': {'seen': '{{ x }}'}})
+    elif reader == 'R2':
+        racts.append({'id': 'rd', 'uses': IRQ, 'key': 'rd', 'inputs': {'v': '{{ x }}'}})
+    else:
+        racts.append({'id': 'rd', 'uses': 'acts.transform.set', 'if': f'x == {T}', 'params': {'seen': T}})
+    fork = {'id': 'fork', 'branches': [{'id': 'b1', 'if': 'true', 'steps': [{'id': 's1', 'acts': [{'id': 'w1', 'uses': IRQ, 'key': 'w1'}]}]},
+                                       {'id': 'b2', 'if': 'true', 'steps': [{'id': 's2', 'acts': racts}]}]}
+    if step_out:
+        fork['outputs'] = {'x': None}
+    if rng.random() < 0.5:
+        fork['branches'].reverse()
+    pre = []
+    if rng.random() < 0.5:
+        pre = [{'id': 'pre', 'acts': [{'id': 'pa', 'uses': 'acts.transform.set', 'params': {'x': 1}}]}]      # a predecessor whose outputs the fork starts from
+    wf = {'id': 'm1', 'inputs': {'x': 0, 'seen': -1}, 'outputs': {'seen': None, 'x': None}, 'steps': pre + [fork]}
+    rules = [{'match': {'key': 'rd'}, 'action': 'next'}]
+    ops = [{'op': 'start', 'mid': 'm1', 'vars': {'pid': 'p1'}}, {'op': 'quiesce'},
+           {'op': 'act', 'target': {'pid': 'p1', 'key': 'w1', 'state': 'interrupted'}, 'action': 'next', 'options': {'x': T}}, {'op': 'quiesce'},
+           {'op': 'act', 'target': {'pid': 'p1', 'key': 'w2', 'state': 'interrupted'}, 'action': 'next', 'options': {}}, {'op': 'run'}, {'op': 'snapshot', 'level': 'live'}]
+    return wf, rules, ops, {'T': T, 'reader': reader, 'step_out': step_out}
+
+
 class DataFamily:
     name = 'data'
+
+    def gen_fork(self, rng, idx, opts):
+        wf, rules, ops, m = fork_case(rng)
+        rt = rng.choice([{'flavor': 'current'}, {'flavor': 'current', 'chaos': {'max_yields': 3, 'seed': rng.randrange(1, 1 << 40)}}, {'flavor': 'multi', 'workers': 2, 'chaos': {'max_yields': 2, 'seed': rng.randrange(1, 1 << 40)}}])
+        sc = {'id': '', 'family': 'data', 'sched': rt['flavor'] + '-fork', 'runtime': rt, 'engine': {'store': opts.get('store', 'mem'), 'keep_processes': True}, 'models': [json.dumps(wf)],
+              'responder': {'mode': 'quiescent', 'rules': rules}, 'ops': ops}
+        return {'scenarios': [sc], 'meta': dict(m, sub='fork', wf=wf), 'digest': digest([wf, m['T']]), 'nontrivial': True}
+
+    def judge_fork(self, c, opts, obs):
+        out = []
+        h, sc, m = c['hist'][0], c['scenarios'][0], c['meta']
+        sid = sc['id']
+        obs[f"c07.fork-reads:{m['reader']}"] += 1
+        cb = [e for e in h.cbs if e['what'] == 'complete']
+        if not cb:
+            out.append(V('C07', 'program-did-not-complete', 'fork', f"fork program did not complete: {[(e['what'], e['state']) for e in h.cbs if e['what'] != 'start']}", scenario=sid))
+            return out
+        o = cb[0].get('outputs') or {}
+        if m['reader'] == 'R2':
+            ms = [e for e in h.delivers if e['key'] == 'rd' and e['state'] == 'created']
+            seen = (ms[0].get('inputs') or {}).get('v') if ms else 'nomsg'
+        else:
+            seen = o.get('seen')
+        name = {'R1': 'script-global', 'R4': '$get', 'R2': 'message-input', 'Rset': 'set-template', 'Rif': 'act-condition'}[m['reader']]
+        if seen != m['T']:
+            out.append(V('C07', 'read-your-writes', f"{name}:sibling-branch:{'stale' if seen in (0, 1, -1) else 'other'}:{'step-declares-output' if m['step_out'] else 'plain'}",
+                         f"a write of x={m['T']} by the answer in one branch, then the other branch reads x through {name}: saw {seen!r}", scenario=sid))
+        if o.get('x') != m['T']:
+            out.append(V('C07', 'terminal-output-value', 'fork', f"terminal output x = {o.get('x')!r}, last value written was {m['T']}", scenario=sid))
+        return out
     WRITERS = ['W1', 'W2', 'W3', 'W4', 'W5', 'W6', 'W7', 'W8', 'W9', 'W10', 'W11', 'W12', 'W13']
 
     def gen(self, rng, idx, opts):
+        if rng.random() < opts.get('fork', 0.12):
+            return self.gen_fork(rng, idx, opts)
         readers = opts.get('readers', ['R1', 'R2', 'R3', 'R4', 'R5'])
         kinds = self.WRITERS + [r for r in readers if r != 'R3']
         g = G(rng, 100, readers)
@@ -221,6 +287,8 @@ class DataFamily:
     def judge(self, c, opts, obs):
         out = []
         h, sc, m = c['hist'][0], c['scenarios'][0], c['meta']
+        if m.get('sub') == 'fork':
+            return self.judge_fork(c, opts, obs)
         sid = sc['id']
         cb = [e for e in h.cbs if e['what'] == 'complete']
         obs['c07.programs'] += 1
